@@ -244,6 +244,16 @@ def gen_events(rec, r, thorough):
                         vals[vid] = _int_bytes(r, val)
                 noise = {(0x0202, 0x82): b"\x01\x02", (0x0620, 0x20): b"\x01"} if r.random() < 0.3 else {}
                 rec.rec_derive(which, vals, noise)
+    # ---- derivation histories in one process: the same configurations in every order, both kinds in both orders
+    #      (a derivation must depend on its own configuration only)
+    A = {1: b"\x4f\x79", 2: b"\x1a\x85", 3: b"Dev A", 4: b"\x02", 5: b"\x04\x57", 6: b"Prj A", 7: b"\x03"}
+    Bc = {1: b"\x00\x01\x86\x9f", 4: b"\x00\x07", 5: b"\x00\x01", 6: b"Other", 7: b"\x09"}           # no device value
+    C = {2: b"\x00\x2a", 3: b"Only name", 4: b"\x05", 6: b"Only name", 7: b"\x05"}                        # no customer
+    D = {1: b"\x01", 2: b"\x02", 5: b"\x03"}                                                            # no versions
+    for k, perm in enumerate(itertools.permutations([A, Bc, C, D])):
+        for vals in perm:
+            for which in (("prj", "dev") if k % 2 == 0 else ("dev", "prj")):
+                rec.rec_derive(which, dict(vals), {})
     n_derive = len(rec.evs) - n_ids - n_parse
     return {"numeric_range_ids": n_numeric, "id_events": n_ids, "parse_events": n_parse, "derive_events": n_derive}
 
